@@ -443,7 +443,7 @@ SCOPES = {'add_metadata': run_add_case, 'del_metadata': run_del_case, 'from_file
 # enumeration
 # --------------------------------------------------------------------------
 
-MD_KINDS = ('none', 'text', 'num', 'tax', 'slash')
+MD_KINDS = ('none', 'text', 'num', 'tax', 'slash', 'jagged')
 BASE = [np.array([[1., 0., 2.], [0., 3., 0.]]), np.array([[0., 2.], [1., 1.], [0., 0.]]), np.array([[4.]])]
 
 
@@ -483,7 +483,7 @@ def add_cases(tier):
 
 def del_cases(tier):
     keysets = {'none': [], 'text': ['grp', 'name'], 'num': ['depth', 'count', 'flag'], 'tax': ['taxonomy'],
-               'slash': ['a/b', 'grp']}
+               'slash': ['a/b', 'grp'], 'jagged': ['grp', 'extra', 'name']}
     for st in _table_states(tier):
         pool = sorted(set(keysets[st['obs_md']]) | set(keysets[st['samp_md']])) + ['no-such-key']
         for axis in ('sample', 'observation', 'whole'):
